@@ -198,16 +198,15 @@ Definition reverts_key : str := "com.formance.spec/state/reverts"%string.
 Definition queried (orig : list posting) (k : key) : bool := existsb (fun p => key_eqb (dkey p) k) orig.
 Definition is_dest_account (orig : list posting) (a : addr) : bool := existsb (fun p => String.eqb (p_dst p) a) orig.
 
-(* the Go loop dereferences balances[dst][asset] whenever dst is a key of the outer map; that entry is nil
-   when (dst, asset) was not queried: explicit Panic outcome *)
+(* the Go loop credits balances[dst][asset] only when that pair was queried (it used to dereference a nil entry
+   whenever dst alone was a key of the outer map: repaired by a fix: commit; RCPanic is kept but unreachable) *)
 Inductive revert_check := RCOk | RCInsufficient | RCPanic.
 Fixpoint revert_walk (orig : list posting) (cur : volmap) (rps : list posting) : option volmap :=
   match rps with
   | [] => Some cur
   | q :: r =>
     let cur1 := vadd cur (skey q) (0, p_amt q) in
-    if is_dest_account orig (p_dst q) then
-      if queried orig (dkey q) then revert_walk orig (vadd cur1 (dkey q) (p_amt q, 0)) r else None
+    if queried orig (dkey q) then revert_walk orig (vadd cur1 (dkey q) (p_amt q, 0)) r
     else revert_walk orig cur1 r
   end.
 Definition revert_balances_ok (orig : list posting) (vols : volmap) : revert_check :=
